@@ -160,6 +160,30 @@ class Driver:
         self.hmax = max(getattr(self, 'hmax', -1), d)
         return min(w.k['reorg_limit'] - (self.hmax - d), d // 2)
 
+    def server_view_depth(self, base):
+        """(blocks the server would have to undo to reach a branch growing from `base`, height of its tip), from
+        its in-memory and its stored tip, whichever is worse; (None, None) if it has no known tip yet."""
+        w = self.w
+        tips = []
+        srv = w.server
+        if srv is not None and srv.bp is not None and srv.bp.state is not None:
+            tips.append(srv.bp.state.tip)
+        if srv is not None and srv.db is not None and srv.db.state is not None:
+            tips.append(srv.db.state.tip)
+        on_new = {b.hash for b in base.branch()}
+        worst = (None, None)
+        for t in tips:
+            blk = w.tree.blocks.get(t)
+            if blk is None:
+                continue
+            anc = blk
+            while anc is not None and anc.hash not in on_new:
+                anc = anc.parent
+            ds = blk.height - (anc.height if anc is not None else -1)
+            if worst[0] is None or ds > worst[0]:
+                worst = (ds, blk.height)
+        return worst
+
     def fork_now(self, op):
         """Switch the daemon to a branch forking `depth` blocks below its tip.  `extra` is the
         length of the new branch minus the depth (>= 1: strictly longer, the realistic case;
@@ -173,6 +197,13 @@ class Driver:
             return None
         depth = max(1, min(op['depth'], cap))
         base = chain[len(chain) - 1 - depth]
+        # ... and the same two bounds seen from where the server is: it may still sit on a branch the daemon
+        # left earlier (a switch to a shorter branch goes unnoticed until the daemon's chain grows), so that
+        # successive forks add up to one deeper reorganisation for it
+        ds, hs = self.server_view_depth(base)
+        if ds and (ds > w.k['reorg_limit'] - max(0, self.hmax - hs) or hs < 2 * ds + 2):
+            self.probe('fork.skipped_by_quantifier.server_view')
+            return None
         orphaned = [t for b in chain[len(chain) - depth:] for t in b.txs if not t.is_coinbase]
         length = max(1, depth + op.get('extra', 1))
         tip = base
